@@ -149,6 +149,17 @@ fn verify_label<TC: Configuration>(
     vrf_proof: &[u8],
     node_label: NodeLabel,
 ) -> Result<(), VerificationError> {
+    #[cfg(facebook_akd_verif)]
+    if let Some(result) = TC::verif_verify_label(
+        vrf_public_key,
+        akd_label,
+        freshness,
+        version,
+        vrf_proof,
+        node_label,
+    ) {
+        return result;
+    }
     let vrf_pk = crate::ecvrf::VRFPublicKey::try_from(vrf_public_key)?;
     let hashed_label = TC::get_hash_from_label_input(akd_label, freshness, version);
 
